@@ -989,8 +989,15 @@ def replace_zero(x, val):
 # ----- extra functions used internally  -----
 
 
+def array_from_args_index(argnum, ans, args):
+    # the position of entry number argnum - 2 in np.array(args, ndmin=k): ndmin may have
+    # prepended axes of length one to the axis that runs over the entries
+    prepended = anp.ndim(ans) - (1 + anp.ndim(args[argnum]))
+    return (0,) * prepended + (argnum - 2,)
+
+
 def array_from_args_gradmaker(argnum, ans, args, kwargs):
-    return lambda g: match_complex(args[argnum], g[argnum - 2])
+    return lambda g: match_complex(args[argnum], g[array_from_args_index(argnum, ans, args)])
 
 
 defvjp_argnum(anp.array_from_args, array_from_args_gradmaker)
